@@ -91,6 +91,17 @@ pub fn ctor_case(data: &[u8]) -> Option<String> {
 }
 
 fn dec_weight(u: &mut Unstructured, float: bool, mx: u128) -> Option<M> {
+    let m = dec_weight_raw(u, float, mx)?;
+    // unsigned weight types have no negative values: the model must not contain what the type cannot hold
+    // (mx is MAX of the type: unsigned iff it is of the form 2^k - 1 with k a multiple of 8)
+    let unsigned = !float && (mx == u8::MAX as u128 || mx == u16::MAX as u128 || mx == u32::MAX as u128 || mx == u64::MAX as u128 || mx == u128::MAX);
+    Some(match m {
+        M::I { neg: true, .. } if unsigned => M::int(0),
+        other => other,
+    })
+}
+
+fn dec_weight_raw(u: &mut Unstructured, float: bool, mx: u128) -> Option<M> {
     Some(if float {
         match u.int_in_range(0..=7u8).ok()? {
             0 => M::F(0.0),
